@@ -31,15 +31,22 @@ PLANS = {
     "D": {"q1": [1, 2, 3], "q2": [4, 5, 6]},
     "E": {"q1": [1], "q2": [2]},
 }
-BAD = {"A": {2}, "B": {3}, "C": {3}, "D": {3}, "E": set()}
+# messages that cannot be encoded, and why: "avp" = wrongly typed attribute (AvpEncodeError), "hdr" = header field beyond
+# 32 bits (packer error), "obj" = a non-AVP object in the AVP list (AttributeError/TypeError)
+BAD = {"A": {2: "hdr"}, "B": {3: "avp"}, "C": {3: "obj"}, "D": {3: "hdr"}, "E": {}, "F": {2: "avp", 4: "obj"}}
+PLANS["F"] = {"q1": [1, 2, 3], "q2": [4, 5]}
 
 
 def mk_msg(i, bad):
     m = msgs.dwr("node.r1", hbh=100 + i, e2e=200 + i)
     if i % 2 == 0:
         m.append_avp(msgs.Avp.new(msgs.K.AVP_USER_NAME, value="u" * (3 * i)))
-    if bad:
-        m.origin_state_id = "not-an-int"      # as_bytes() raises
+    if bad == "avp":
+        m.origin_state_id = "not-an-int"      # as_bytes() raises AvpEncodeError
+    elif bad == "hdr":
+        m.header.hop_by_hop_identifier = 2 ** 32 + i
+    elif bad == "obj":
+        m.append_avp(object())
     return m
 
 
@@ -107,7 +114,7 @@ def run_one(plan_name, script, policy, trace=True):
         base = len(vc.sock.sent)
         vc.sock.send_script.extend(script)
         nmsg = sum(len(v) for v in plan.values())
-        objs = {i: mk_msg(i, i in bad) for i in range(1, nmsg + 1)}
+        objs = {i: mk_msg(i, bad.get(i)) for i in range(1, nmsg + 1)}
         order = []
         sends = []
 
@@ -241,12 +248,14 @@ def run(tier, seed):
     load()
     P = 3 if thorough else 2
     items = []
-    for plan in (["A", "E", "C", "B", "D"] if thorough else ["A", "E", "C"]):
+    for plan in (["A", "E", "C", "B", "D", "F"] if thorough else ["A", "E", "C", "F"]):
         nb = 80 * sum(len(v) for v in PLANS[plan].values())
         scripts = gen_scripts(tier, seed + len(plan), nb)
         for i, sc in enumerate(scripts):
             # the full preemption bound on the small plans; bound 1 + run cap on the larger ones
             small = plan in ("A", "E")
+            if plan == "F" and i > 2 and not thorough:
+                continue
             items.append((plan, sc, P if small else (2 if thorough else 1), 6000 if thorough else 900))
     outs = fan_out(_explore_item, items)
     execs = 0
